@@ -83,6 +83,19 @@ def run(ctx: core.Ctx):
             ctx.finding("length-vs-height", f"{g}: reported length {s['active_borehole_length']} != returned height {r['H']}", rep)
         if abs(s["max_hp_eft"] - r["oracle_a"][0]) > 1e-3 or abs(s["min_hp_eft"] - r["oracle_a"][1]) > 1e-3:
             ctx.finding("summary-temps-not-at-reported-height", f"{g} ({kind}): summary EFT {s['max_hp_eft']:.4f}/{s['min_hp_eft']:.4f} vs re-simulation at the reported height {r['oracle_a'][0]:.4f}/{r['oracle_a'][1]:.4f}", rep)
+        # the summary describes the design under the parameters it was made with (also when the user has
+        # already set the simulation parameters of the NEXT scenario on the manager)
+        sp = s.get("sim_params") or {}
+        if sp:
+            ctx.count("summary-sim-params-checked" + (":after-late-reconfiguration" if r.get("late_reconfig") else ""))
+            want = {"end_month": cfg["months"], "maximum_allowable_hp_eft": cfg["max_eft"], "minimum_allowable_hp_eft": cfg["min_eft"],
+                    "maximum_allowable_height": cfg["max_h"], "minimum_allowable_height": cfg["min_h"]}
+            diff = {k: (sp.get(k), v) for k, v in want.items() if sp.get(k) != v}
+            if diff:
+                ctx.finding("summary-parameters-not-the-designs", f"{g}: the summary reports {{{', '.join(f'{k}: {a}' for k, (a, b) in diff.items())}}} but the design was made under {{{', '.join(f'{k}: {b}' for k, (a, b) in diff.items())}}}"
+                            + (" (set_simulation_parameters for the next scenario was called before prepare_results)" if r.get("late_reconfig") else ""), rep)
+            if not (sp.get("minimum_allowable_height", -1e9) - 1e-9 <= s["active_borehole_length"] <= sp.get("maximum_allowable_height", 1e9) + 1e-9):
+                ctx.finding("reported-height-outside-reported-window", f"{g}: reported length {s['active_borehole_length']} outside the reported window [{sp.get('minimum_allowable_height')}, {sp.get('maximum_allowable_height')}]", rep)
         bad_rows = [row for row in s["log"] if abs(row[1] - max(row[2] - cfg["max_eft"], cfg["min_eft"] - row[3])) > 1e-12 * max(1.0, abs(row[1]))]
         ctx.count("log-rows", len(s["log"]))
         if bad_rows:
